@@ -471,6 +471,13 @@ func generateGhost(p *packages.Package, funcs map[string]*ssa.Function, cs *Cont
 					continue
 				}
 			}
+			if allowLocals && target != nil && strings.HasSuffix(id, "_next") {
+				if t := findLocal(p.TypesInfo, target, strings.TrimSuffix(id, "_next")); t != nil {
+					ps = append(ps, ghostParam{id, tp.str(t)})
+					have[id] = true
+					continue
+				}
+			}
 			if allowLocals && target != nil && id != "rangeindex" {
 				if t := findLocal(p.TypesInfo, target, id); t != nil {
 					ps = append(ps, ghostParam{id, tp.str(t)})
